@@ -10,11 +10,20 @@
 (*   rows   output rows [k, p, n, c, m, em]: k kind ("path" | "hit" | "sep" | "blank" |      *)
 (*          "other"), p path id shown (0 none), n number shown (0 none), c code id,          *)
 (*          m TRUE iff painted as a match line, em emphasised column ranges                 *)
-EXTENDS Naturals, Sequences, FiniteSets, TLC, Json, IOUtils
+EXTENDS Grep, TLC, Json, IOUtils
 
 Rec == ndJsonDeserialize(IOEnv.TRACE)
-VARIABLES l, failed
-vars == <<l, failed>>
+VARIABLES l, failed, drift
+vars == <<l, failed, drift>>
+
+\* the implementation-shaped model (Grep) run on the same records: does it predict the kinds of rows written - the
+\* empty row between files, file headers, "--" separators, hits - in the order the binary writes them?  (drift only)
+ModelKinds(e) == LET rs == Rows(e.style, [i \in DOMAIN e.recs |-> [p |-> e.recs[i].p, n |-> e.recs[i].n, t |-> e.recs[i].t]])
+                 IN [j \in DOMAIN rs |-> rs[j].k]
+\* (an empty hit without number is seen as a blank row: compare hits and blanks alike)
+Norm(k) == IF k = "blank" THEN "hit" ELSE k
+ObsKinds(e) == LET rs == SelectSeq(e.rows, LAMBDA x : x.k # "other") IN [j \in DOMAIN rs |-> rs[j].k]
+Drifts(e) == e.code = 0 /\ e.model /\ [j \in DOMAIN ModelKinds(e) |-> Norm(ModelKinds(e)[j])] # [j \in DOMAIN ObsKinds(e) |-> Norm(ObsKinds(e)[j])]
 
 \* an empty line without a number is shown as an empty row
 EmptyRec(e, r) == r.n = 0 /\ r.c = e.empty
@@ -53,11 +62,12 @@ WalkC(e, i, j) ==
 Judge(e) == IF e.code # 0 THEN 100000 + e.code
             ELSE IF e.style = "ripgrep" THEN WalkR(e, 1, 1, 0) ELSE WalkC(e, 1, 1)
 
-Init == l = 1 /\ failed = <<>>
+Init == l = 1 /\ failed = <<>> /\ drift = <<>>
 Next == /\ l <= Len(Rec)
         /\ l' = l + 1
         /\ LET e == Rec[l] v == Judge(e) IN
-             failed' = IF v = 0 THEN failed ELSE Append(failed, [run |-> e.run, row |-> v])
+             /\ failed' = IF v = 0 THEN failed ELSE Append(failed, [run |-> e.run, row |-> v])
+             /\ drift' = IF Drifts(e) THEN Append(drift, e.run) ELSE drift
 Spec == Init /\ [][Next]_vars
-Done == l <= Len(Rec) \/ PrintT(<<"VERDICT", ToJson(failed)>>)
+Done == l <= Len(Rec) \/ (PrintT(<<"DRIFT", ToJson(drift)>>) /\ PrintT(<<"VERDICT", ToJson(failed)>>))
 =============================================================================
